@@ -145,20 +145,16 @@ def ranked_population(draw):
     else:
         seq = list(draw(st.permutations(list(range(len(pool))))))
     k = draw(st.one_of(st.integers(1, max(1, len(set(seq)) - 1)), st.integers(1, len(seq) + 3)))
-    return {"pool": pool, "seq": seq, "k": k}
+    # a second generation on the same objects: some members are moved IN PLACE (coordinate by coordinate, as the swarm
+    # operators and the clip step do) onto the design of another member, then the population is ranked and cut again
+    moves = draw(st.lists(st.tuples(st.integers(0, len(seq) - 1), st.integers(0, len(seq) - 1)), max_size=3))
+    return {"pool": pool, "seq": seq, "k": k, "moves": [list(mv) for mv in moves]}
 
 
-def check_truncate(case):
-    from artap.individual import Individual
-    from artap.operators import TournamentSelector, nondominated_truncate
-    pool, seq = case["pool"], case["seq"]
+def _verify_truncations(case, pool, seq, pop, sel, classes, tag):
+    from artap.operators import nondominated_truncate
+    nt = False
     with guard("truncate"):
-        sel = TournamentSelector(params([(0.0, 1.0)] * len(pool[0]["v"])))
-        pop = []
-        for i in seq:
-            ind = Individual(list(pool[i]["v"]))
-            ind.costs_signed = list(pool[i]["c"]) + [pool[i]["mk"]]
-            pop.append(ind)
         sel.fast_nondominated_sorting(pop)
         fronts_ = {id(p): p.features["front_number"] for p in pop}
         crowd = {id(p): p.features["crowding_distance"] for p in pop}
@@ -167,8 +163,6 @@ def check_truncate(case):
     front_of = {}
     for j, p in enumerate(pop):
         front_of[seq[j]] = fronts_[id(p)]     # same costs => same front for all representatives
-    nt = False
-    classes = set()
     # every truncation size is tried on the same ranked population (the drawn k first, so that it shrinks well)
     for k in [case["k"]] + [x for x in range(1, len(seq) + 3) if x != case["k"]]:
         with guard("truncate"):
@@ -177,10 +171,10 @@ def check_truncate(case):
             raise Violation("truncate", "foreign-object", "truncate returned an object that was not in the population")
         kept = [design[id(r)] for r in res]
         if len(res) != min(k, len(distinct)):
-            raise Violation("truncate", "size", "k=%d, %d distinct designs (of %d members) -> %d returned; designs %r" % (
+            raise Violation("truncate", "size" + tag, "k=%d, %d distinct designs (of %d members) -> %d returned; designs %r" % (
                 k, len(distinct), len(seq), len(res), [pool[i]["v"] for i in seq]))
         if len(set(kept)) != len(kept):
-            raise Violation("truncate", "design-twice", "a design was returned twice: %r" % (
+            raise Violation("truncate", "design-twice" + tag, "a design was returned twice: %r" % (
                 [pool[i]["v"] for i in kept],))
         discarded = [d for d in distinct if d not in kept]
         cut = None
@@ -210,6 +204,37 @@ def check_truncate(case):
         if cut is not None and cut_size >= 3:
             nt = True
         classes.add("cuts-front" if cut else "no-cut")
+    return nt
+
+
+def check_truncate(case):
+    from artap.individual import Individual
+    from artap.operators import TournamentSelector, nondominated_truncate
+    pool, seq = case["pool"], case["seq"]
+    with guard("truncate"):
+        sel = TournamentSelector(params([(0.0, 1.0)] * len(pool[0]["v"])))
+        pop = []
+        for i in seq:
+            ind = Individual(list(pool[i]["v"]))
+            ind.costs_signed = list(pool[i]["c"]) + [pool[i]["mk"]]
+            pop.append(ind)
+    nt = False
+    classes = set()
+    seq = list(seq)
+    for generation in (0, 1):
+        if generation == 1:
+            moves = [mv for mv in case.get("moves") or [] if seq[mv[0]] != seq[mv[1]]]
+            if not moves:
+                break
+            with guard("truncate"):
+                for a, b in moves:
+                    for t_ in range(len(pop[a].vector)):
+                        pop[a].vector[t_] = pool[seq[b]]["v"][t_]
+                    pop[a].costs_signed = list(pool[seq[b]]["c"]) + [pool[seq[b]]["mk"]]
+                    seq[a] = seq[b]
+            classes.add("moved-in-place")
+        nt = _verify_truncations(case, pool, seq, pop, sel, classes, "" if generation == 0 else ":after-move") or nt
+    distinct = sorted(set(seq))
     classes.add("dups" if len(distinct) < len(seq) else "distinct")
     return {"nt": nt, "classes": sorted(classes)}
 
